@@ -243,6 +243,11 @@ func (fr *frame) fmtArg(pc fmtPiece, arg value, lenient bool) value {
 		if lenient {
 			return "<composite>"
 		}
+		if p.printing {
+			// output nobody may look at precisely (StdoutEnd refuses)
+			p.stdoutApprox = true
+			return "<composite>"
+		}
 		p.unsupported("fmt of a composite value with symbolic leaves")
 	}
 	nat := fr.native(it.t, v, 0)
@@ -368,6 +373,8 @@ func (p *Path) outLen(s value) value {
 }
 
 func extPrintf(fr *frame, args []value) value {
+	fr.i.path.printing = true
+	defer func() { fr.i.path.printing = false }()
 	s := fr.sprintf(args[0], varargs(args[1]), false)
 	fr.i.path.writeStdout(s)
 	return tuple{fr.i.path.outLen(s), iface{}}
